@@ -124,7 +124,9 @@ def origin(annotation: tp.Any) -> tp.Any:
     if not isbuiltintype(actual):
         actual = _check_generics(actual)
 
-    if iscallable(actual):
+    # A routine or the `Callable` form itself is a callable *type*. A class whose instances
+    #   happen to be callable (it defines `__call__`) is still that class.
+    if iscallable(actual) and (actual is abc_Callable or not inspect.isclass(actual)):
         actual = tp.Callable
 
     return actual
